@@ -57,7 +57,9 @@ def run(db, chk) -> None:
             cur = m.parent.get(id(cur))
         gtxt = ast.unparse(guard.test) if guard is not None else None
         det.append((key, ast.unparse(n.value), gtxt))
-        okst = okst and key == "weight" and lit(n.value) == 0 and gtxt is not None and "e.weight" in gtxt and ("<" in gtxt)
+        neg_guard = guard is not None and any(H.match(p_, c) is not None for c in ast.walk(guard.test) if isinstance(c, ast.Compare)
+                                              for p_ in ("$e.weight <= -1", "$e.weight < 0", "$e.weight < -1", "$e.weight <= 0"))
+        okst = okst and key == "weight" and lit(n.value) == 0 and neg_guard
     chk.ob("C09.R1-key-agreement", "validation overwrites an edge weight only with 0 and only under the negative-weight guard", okst, m.loc(v), found=det, accepted=[("weight", "0", "e.weight <= -1 and ...")],
            why="writing the stored CPEdge weight back on every edge silently undoes a what-if re-weighting before the path is recomputed")
     obj_reads = [n for n in ast.walk(f) if isinstance(n, ast.Subscript) and lit(n.slice) == "object"]
@@ -104,26 +106,22 @@ class _Prefixed:
 
 
 def _pair_form(f):
-    src = ast.unparse(f)
-    found = []
-    # idiom (a): iterator with u/v hand-over
-    nexts = [n for n in ast.walk(f) if isinstance(n, ast.Call) and H.name_id(n.func) == "next"]
-    its = [val for t, val, s in H.assignments(f) if isinstance(val, ast.Call) and H.name_id(val.func) == "iter" and val.args and H.is_self_attr(val.args[0], "critical_path_nodes")]
+    # idiom (a): u = next(it) ... loop: v = next(it); e = self.edges[u, v]["object"]; <set>.add(e); u = v
+    its = [(H.name_id(t), s) for t, val, s in H.assignments(f) if isinstance(val, ast.Call) and H.name_id(val.func) == "iter" and val.args and H.is_self_attr(val.args[0], "critical_path_nodes")]
     loops = [n for n in ast.walk(f) if isinstance(n, (ast.While, ast.For))]
-    if its and len(nexts) == 2 and loops:
-        lp = loops[0]
-        body = [s for s in ast.walk(lp) if isinstance(s, ast.Assign)]
-        txt = [ast.unparse(s).replace(" ", "") for s in body]
-        first = [ast.unparse(s).replace(" ", "") for s in f.body if isinstance(s, ast.Assign) and isinstance(s.value, ast.Call) and H.name_id(s.value.func) == "next"]
-        ok = first == ["u=next(niter)"] and "v=next(niter)" in txt and "e=self.edges[u,v]['object']" in txt and "u=v" in txt and \
-            txt.index("v=next(niter)") < txt.index("e=self.edges[u,v]['object']") < txt.index("u=v")
-        adds = [n for n in ast.walk(lp) if isinstance(n, ast.Call) and isinstance(n.func, ast.Attribute) and n.func.attr == "add" and [H.name_id(a) for a in n.args] == ["e"]]
-        return {"ok": ok and len(adds) == 1, "found": first + txt}
-    # idiom (b): zip(path, path[1:])
-    zips = [n for n in ast.walk(f) if isinstance(n, ast.Call) and H.name_id(n.func) == "zip" and len(n.args) == 2]
-    for z in zips:
-        a, b = ast.unparse(z.args[0]), ast.unparse(z.args[1])
-        if b == a + "[1:]" and "critical_path_nodes" in a or (a in ("path", "nodes") and b == a + "[1:]"):
-            objs = [n for n in ast.walk(f) if isinstance(n, ast.Subscript) and lit(n.slice) == "object"]
-            return {"ok": len(objs) == 1 and "edges[u, v]" in ast.unparse(objs[0]), "found": [ast.unparse(z)]}
+    if its and loops:
+        itv = its[0][0]
+        first = [r for st in f.body for r in [H.match(f"$u = next({itv})", st)] if r is not None]
+        if len(first) == 1:
+            b = first[0]
+            stmts = [s for s in ast.walk(loops[0]) if isinstance(s, (ast.Assign, ast.Expr))]
+            stmts.sort(key=lambda s: s.lineno)
+            r = H.match_seq([f"$v = next({itv})", "$e = self.edges[$u, $v]['object']", "self.critical_path_edges_set.add($e)", "$u = $v"], stmts, b)
+            nexts = [n for n in ast.walk(f) if isinstance(n, ast.Call) and H.name_id(n.func) == "next"]
+            return {"ok": r is not None and len(nexts) == 2, "found": [ast.unparse(s)[:80] for s in stmts]}
+    # idiom (b): for u, v in zip(path, path[1:]): ... self.edges[u, v]["object"]
+    for n, b in H.find_match("zip($$p, $$p[1:])", f):
+        if "critical_path_nodes" in ast.unparse(b["__mvx_p"]) or isinstance(b["__mvx_p"], ast.Name):
+            objs = H.find_match("self.edges[$u, $v]['object']", f)
+            return {"ok": len(objs) == 1, "found": [ast.unparse(n)]}
     return {"ok": None, "found": ["pairing idiom not recognised"]}
